@@ -12,7 +12,7 @@ EXPLANATION = (
     'as "every store to reg_p is masked with 0xF" are computed from all stores) or listed as not decided with its '
     'invariant. R-DIV: every simulator division has a proven non-zero divisor. R-REC: recursion cycles reachable from '
     'the simulators are depth-guarded (the MIPS delay-slot cycle is a known finding). API-ONLY: simulators do not index '
-    'MemoryPage storage directly. ADDR-SPACE: a simulator that wraps byte addresses to its CPU\'s address space does not call a multi-byte accessor on a wrapped base. SIM-STATIC: no simulator function stores to a variable with static storage other than the Ctrl-C flag (hidden state between steps). FIELD-INV: the member-field range invariants that idx_table.json relies on (8008 return-stack pointer in 0..7) hold at every store to the field. Not decided: PC agreement with the disassembler, determinism of results as values.')
+    'MemoryPage storage directly. ADDR-SPACE: a simulator that wraps byte addresses to its CPU\'s address space does not call a multi-byte accessor on a wrapped base. SIM-STATIC: no simulator function stores to a variable with static storage other than the Ctrl-C flag (hidden state between steps). WORD-ADDR: every word address the LC-3 simulator scales and stores through is a 16-bit value. FIELD-INV: the member-field range invariants that idx_table.json relies on (8008 return-stack pointer in 0..7) hold at every store to the field. Not decided: PC agreement with the disassembler, determinism of results as values.')
 
 
 def api_only(prog):
@@ -38,5 +38,5 @@ def run(tier, t0):
     roots = [q for q in prog.by_key if q.startswith('Simulate') and q.endswith('::run')]
     dctx = div.Ctx(prog, an)
     results = [idx.idx(prog, scope, 60, an), div.div(prog, scope, 10, ctx=dctx), term.rec(prog, cg, roots or ['Simulate::run']),
-               api_only(prog), sim.addr_space(prog), sim.sim_static(prog), idx.field_inv(prog)]
+               api_only(prog), sim.addr_space(prog), sim.sim_static(prog), idx.field_inv(prog), sim.word_addr(prog)]
     return report.finish('C15', tier, results, EXPLANATION, [], common.TRUSTED, t0)
